@@ -137,6 +137,7 @@ class MatchWithError(Match):
         if not ExceptionUtil.has_traceback(error):
             ExceptionUtil.set_traceback(error)
         Match.__init__(self, func=func)
+        self.arguments = []     # -- NO ARGUMENTS: Like NoMatch (formatters iterate over them).
         self.stored_error = error
 
     def run(self, context):
